@@ -1305,7 +1305,15 @@ func buildExactHistory(dir string, r *rand.Rand, count func(string)) *histRepo {
 	h := &histRepo{dir: dir, ancestor: true}
 	fail := func(err error) *histRepo { h.err = err; return h }
 	uniq := 0
-	fresh := func() string { uniq++; return fmt.Sprintf("\tu%d := %d", uniq, uniq*7%100) }
+	fresh := func() string {
+		uniq++
+		// one fresh line in six is made of white space only (unique by its length): an added "blank"
+		// line is an added line like any other
+		if r.Intn(6) == 0 {
+			return strings.Repeat(" ", uniq)
+		}
+		return fmt.Sprintf("\tu%d := %d", uniq, uniq*7%100)
+	}
 	file := func(n int) string {
 		var b strings.Builder
 		for i := 0; i < n; i++ {
